@@ -38,6 +38,12 @@ CHECKS = {
              text="Every handle obtained inside a critical section is probed after each controller step and must be open until, and closed after, the first broadcast of a later section; Wait results are judged against logged predicate evaluations; no waiter is blocked at an exact quiescent point while its predicate holds. TLC checks the same on Broadcast.tla for every interleaving of 3-5 clients.", ref="§3 C03"),
  "C15": dict(engine="ccontainer", technique="TLA+ monitor CContainerP (cell history with custom-equality classes, waiter conditions, Stuck) checked by TLC on CContainer.tla and on traces of the real CContainer under TLC edge-cover + random schedules",
              text="Swap callbacks see the current cell value (linearisation at the callback), waiter results lie in the cell's history since the call and satisfy the condition, error returns only if the source fired, no waiter blocked at quiescence while satisfied; checked by TLC on the X spec and on controlled executions with writers, four waiter kinds, custom equality, cancellations and error-channel deliveries.", ref="§3 C15"),
+ "C08": dict(engine="refcount", technique="TLA+ monitor RefCountP (release counts, deliveries per reference, invalidation, target contents read inside release funcs, Leak at quiescence) checked by TLC on RefCount.tla and on traces of the real RefCount under TLC edge-cover + seeded random schedules with a harness-owned resolver that can return long after being superseded",
+             text="Exactly-once release, never while a holder has the value un-invalidated, target emptied and holders told before the release func runs, nothing left unreleased at exact quiescent points — conditions of RefCountP evaluated by TLC on every event of controlled executions (every r.mtx section, resolver start/return, released() paths are separate steps; both keep-unreferenced settings) and as invariants of the X spec.", ref="§3 C08"),
+ "C09": dict(engine="refcount", technique="same executions as C08; RefCountP resolver-overlap, resolved-at-quiescence, delivery and no-panic conditions",
+             text="At most one resolver call inside the resolver; at quiescence with context and references either a call is in progress or the latest result is in the target containers and was delivered to every held callback (late references included); released() leads to a fresh resolution; AddRef/Release/SetContext (nil callback included) neither panic nor block.", ref="§3 C09"),
+ "C10": dict(engine="refcount", technique="same driver with Wait/Resolve/ResolveWithReleased/Access consumers; RefCountP consumer conditions (HeldRel, released-callback once, Access value/cancel/result rules)",
+             text="Values returned by Wait/Resolve are not released while the reference is held unless invalidated (then the released callback fires exactly once); Access calls back with a value current at its look, its callback context is cancelled on invalidation and the callback is re-invoked with the replacement; Access returns only results of non-invalidated invocations. Invalidation is a separately schedulable step at every point of the consumer's call (Access's private Broadcast is hooked).", ref="§3 C10"),
 }
 NOT_YET = "not built yet in this session (work in progress; see DESIGN.md §6 build order)"
 
@@ -71,6 +77,7 @@ m = {
    {"name": "seqio", "path": "tools/fam_seqio.py", "serves_properties": ["C20"], "kind_free_text": "TLA+ reference models for the sequential helpers (harness/drivers/seqio.go)"},
    {"name": "broadcast", "path": "tools/fam_broadcast.py", "serves_properties": ["C03"], "kind_free_text": "TLC model checking of specs/broadcast + controlled replay/trace validation (harness/drivers/broadcast.go)"},
    {"name": "ccontainer", "path": "tools/fam_ccontainer.py", "serves_properties": ["C15"], "kind_free_text": "TLC model checking of specs/ccontainer + controlled replay/trace validation (harness/drivers/ccontainer.go)"},
+   {"name": "refcount", "path": "tools/fam_refcount.py", "serves_properties": ["C08", "C09", "C10"], "kind_free_text": "TLC model checking of specs/refcount + controlled replay/trace validation (harness/drivers/refcount.go)"},
    {"name": "race", "path": "tools/fam_race.py", "serves_properties": ["C13"], "kind_free_text": "free-running client programs under the Go race detector (harness/race_test.go)"},
    {"name": "routine", "path": "tools/fam_routine.py", "serves_properties": ["C04", "C05", "C14"], "kind_free_text": "TLC model checking of specs/routine + controlled replay/trace validation (harness/drivers/routine.go)"},
  ],
